@@ -8,7 +8,7 @@ import tempfile
 import mido
 
 from harness import core, project as P
-from harness.common import pmap, build, score_abs, via
+from harness.common import pmap, build, score_abs, via, via4, canonical_in
 
 core.import_scoda()
 from scoda.misc.music_theory import Key  # noqa: E402
@@ -31,8 +31,17 @@ def saveload(case):
     line = {"kind": "saveload", "saved": [], "loaded": [], "loadedRel": [], "raised": "", "target": 0, "case": {"scores": scores}}
     path = tmpfile()
     try:
-        seqs = [build(sc, via(idx + i)) for i, sc in enumerate(scores)]
-        line["saved"] = [P.raw_rel(s) for s in seqs]
+        seqs = [build(sc, via4(idx + i)) for i, sc in enumerate(scores)]
+        if idx % 7 == 6:
+            # history: the relative view was materialised (as a first save does), then the sequence was changed on the
+            # absolute side; what is saved is what the sequence holds now
+            for s in seqs:
+                s.refresh()
+                s.quantise([2])
+        # the content that is saved: the timed events of the sequence (for the 'late' route, whose absolute view stores
+        # the events of one tick in insertion order, in canonical order)
+        line["saved"] = [P.abs_to_rel(canonical_in(s, sc)) if (via4(idx + i) == "late" and idx % 7 != 6) else
+                         P.abs_to_rel(P.raw_abs(s)) for i, (s, sc) in enumerate(zip(seqs, scores))]
         if len(seqs) == 1 and idx % 2:
             seqs[0].save(path)              # the single-sequence entry point
         else:
